@@ -36,6 +36,7 @@ Disc == Data.disc        \* [ps |-> catalogue index of a point set, b |-> index 
 ACases == Data.abs          \* [op, sets |-> << atoms of A, atoms of B >>, meas |-> <<m_1..m_N>>, dims |-> <<dA, dB>>]
 Traces == Data.traces    \* [op, regs |-> <<ia, ib>>, ev |-> << events >>]
 Prims == Data.prim       \* [r |-> catalogue index, smp |-> << snapped samples >>]
+Seqs == Data.seq         \* [ps |-> point set, alts |-> << second operands, equiprobable >>, n |-> number of consecutive samples]
 Tris == Data.tri         \* [r |-> index of a poly, tris |-> << <<x1,y1,x2,y2,x3,y3>> .. >>, cum2 |-> << 2*cumulative areas >>]
 Fan == 16
 
@@ -157,6 +158,30 @@ Pick ==
      ELSE \E j \in 1..Len(ms) : pt' = ms[j] /\ w' = Rat!Of(1, Len(ms)) /\ pc' = "ret"
   /\ UNCHANGED <<mode, c, sel, hist, pos>>
 
+\* ---------------------------------------------------------------- (a') consecutive samples of one region
+\* A point set intersected with a RANDOM second operand (one of `alts`, equiprobable, drawn afresh for
+\* every sample).  Samples are independent: whatever was drawn before, the next point is uniform on
+\* the members for the operand drawn NOW (nothing may be remembered from earlier samples).
+SeqMembers(k, j) == LET ps == Cat[Seqs[k].ps].s IN SelectSeq(ps, LAMBDA p : Member(Cat[Seqs[k].alts[j]], p))
+SAlt == /\ mode = "seq" /\ pc = "s-alt"
+        /\ \E j \in 1..Len(Seqs[c].alts) : sel' = j /\ w' = Rat!Mul(w, Rat!Of(1, Len(Seqs[c].alts)))
+        /\ pc' = "s-pt" /\ UNCHANGED <<mode, c, pt, hist, pos>>
+SPt == /\ mode = "seq" /\ pc = "s-pt"
+       /\ LET ms == SeqMembers(c, sel) IN
+          IF ms = <<>> THEN pc' = "rej" /\ UNCHANGED <<pt, hist, w>>
+          ELSE \E k \in 1..Len(ms) :
+                 /\ pt' = ms[k] /\ w' = Rat!Mul(w, Rat!Of(1, Len(ms))) /\ hist' = Append(hist, <<sel, ms[k]>>)
+                 /\ pc' = IF Len(hist') = Seqs[c].n THEN "ret" ELSE "s-alt"
+       /\ UNCHANGED <<mode, c, sel, pos>>
+RECURSIVE SeqW(_, _)
+SeqW(k, h) == IF h = <<>> THEN Rat!One
+              ELSE Rat!Mul(Rat!Of(1, Len(Seqs[k].alts) * Len(SeqMembers(k, h[1][1]))), SeqW(k, Tail(h)))
+\* every sample of the sequence is a member for ITS operand and the weight is the product of the
+\* per-sample laws: no dependence on the earlier samples
+SeqIndependent == (mode = "seq" /\ pc = "ret") =>
+  /\ \A j \in 1..Len(hist) : InSeq(SeqMembers(c, hist[j][1]), hist[j][2])
+  /\ w = SeqW(c, hist)
+
 \* ---------------------------------------------------------------- initial fan-out and picking a case
 Start0(o) == IF o = "union" THEN "u-choose" ELSE IF o = "inter" THEN "i-draw" ELSE "d-draw"
 Init == mode = "start" /\ c \in 0..(Fan - 1) /\ pc = "start" /\ sel = 0 /\ pt = 0 /\ hist = <<>> /\ w = Rat!One /\ pos = 1
@@ -165,12 +190,13 @@ PickCase ==
   /\ \/ \E k \in 1..Len(ACases) : k % Fan = c /\ c' = k /\ mode' = "abs" /\ pc' = Start0(ACases[k].op)
      \/ \E k \in 1..Len(Traces) : k % Fan = c /\ c' = k /\ mode' = "trace" /\ pc' = Start0(Traces[k].op)
      \/ \E k \in 1..Len(Disc) : k % Fan = c /\ c' = k /\ mode' = "disc" /\ pc' = "pick"
+     \/ \E k \in 1..Len(Seqs) : k % Fan = c /\ c' = k /\ mode' = "seq" /\ pc' = "s-alt"
      \/ \E k \in 1..Len(Prims) : k % Fan = c /\ c' = k /\ mode' = "prim" /\ pc' = "done"
      \/ \E k \in 1..Len(Tris) : k % Fan = c /\ c' = k /\ mode' = "tri" /\ pc' = "done"
   /\ UNCHANGED <<sel, pt, hist, w, pos>>
 UAccept == UCoin(TRUE)
 UReject == UCoin(FALSE)
-Next == PickCase \/ Pick \/ UChoose \/ UDraw \/ UAccept \/ UReject \/ IDraw \/ ITest \/ DDraw \/ DTest
+Next == PickCase \/ Pick \/ SAlt \/ SPt \/ UChoose \/ UDraw \/ UAccept \/ UReject \/ IDraw \/ ITest \/ DDraw \/ DTest
 Spec == Init /\ [][Next]_vars
 
 Terminal == pc \in {"ret", "rej"}
@@ -213,8 +239,8 @@ DrawableA(k, a) == \* atoms of the composed set that carry its natural measure (
 RetTotal(k) == Rat!SumSeq([a \in 1..Len(ACases[k].meas) |-> RetW(k, a)])
 CompMeasure(k) == SumOver(SelectSeq([a \in 1..Len(ACases[k].meas) |-> a], LAMBDA a : AComposed(k, a) /\ DrawableA(k, a)), ACases[k].meas)
 \* ---------------------------------------------------------------- invariants
-TypeOK == /\ mode \in {"start", "abs", "trace", "disc", "prim", "tri"}
-          /\ pc \in {"start", "u-choose", "u-draw", "u-coin", "i-draw", "i-test", "d-draw", "d-test", "pick", "ret", "rej", "done"}
+TypeOK == /\ mode \in {"start", "abs", "trace", "disc", "prim", "tri", "seq"}
+          /\ pc \in {"start", "u-choose", "u-draw", "u-coin", "i-draw", "i-test", "d-draw", "d-test", "pick", "ret", "rej", "done", "s-alt", "s-pt"}
 \* whatever is returned belongs to the composed set, with all three coordinates
 ReturnInSet == (mode \in {"abs", "trace"} /\ pc = "ret") => Composed(pt) # "out"
 \* a rejected union draw was contained in more than one operand; a rejected difference draw was in B
@@ -302,6 +328,7 @@ Emit ==
                                 \cup (IF Disc[c].b # 0 /\ Cat[Disc[c].b].k \in {"poly", "rect"}
                                          /\ \E j \in 1..Len(Cat[Disc[c].ps].s) : FootMember(Cat[Disc[c].b], Cat[Disc[c].ps].s[j]) /\ ~Member(Cat[Disc[c].b], Cat[Disc[c].ps].s[j])
                                       THEN {"pointset-footprint-membership"} ELSE {})]))
+  /\ (mode = "seq" /\ pc = "ret") => PrintT(ToJson([t |-> "seq", k |-> c, draws |-> hist, w |-> w]))
   /\ (mode = "prim") => PrintT(ToJson([t |-> "prim", k |-> c, cls |-> [j \in 1..Len(Prims[c].smp) |-> Cell(Cat[Prims[c].r], Prims[c].smp[j])]]))
   /\ (mode = "tri") => PrintT(ToJson([t |-> "tri", k |-> c, ok |-> TriOK(c), facts |-> TriFacts(c), law |-> TriLaw(c)]))
   /\ (mode = "abs" /\ pc \in {"u-choose", "i-draw", "d-draw"} /\ hist = <<>>) =>
